@@ -45,7 +45,7 @@ def gen_cases(ck):
         for d in range(-64, 65):
             v = (1 << k) + d
             if 0 <= v < (1 << 64) and ("u", v) not in seen:
-                seen.add(("u", v)); enc.append(("varedge", "varuint", v))
+                seen.add(("u", v)); enc.append(("varedge", "varuint", v)); enc.append(("varedge", "size", v))
             for z in (v, -v):
                 if -(1 << 63) <= z < (1 << 63) and ("s", z) not in seen:
                     seen.add(("s", z)); enc.append(("varedge", "varint", z))
@@ -66,6 +66,12 @@ def gen_cases(ck):
     for _ in range(3000 if tier == "quick" else 30000):
         enc.append(("string", "str", rand_string(rng, 12)))
     enc.append(("string", "str", ""))
+    # strings and sequences whose size prefix sits at a width boundary (1/2 bytes at 64 elements, 2/4 bytes at 16384)
+    for n in (62, 63, 64, 65, 16382, 16383, 16384, 16385):
+        enc.append(("size-boundary", "str", "a" * (n - 2) + "é"))          # n bytes, the last character two bytes long
+        enc.append(("size-boundary", "str", "x" * n))
+        enc.append(("size-boundary", "seq(bool)", [bool((i * 7) % 3 == 0) for i in range(n)]))
+        enc.append(("size-boundary", "seq(u8)", [i % 251 for i in range(n)]))
     per = 400 if tier == "quick" else 4000
     for tn in MENU[10:]:
         t = parse_ty(tn)
